@@ -172,6 +172,17 @@ func ext4PrefixScenarios(cfg fatCfg, oracle string, depth int) []*fatScen {
 	lfr := []fsOp{W(long(90), "0", "c"), W(long(91), "0", "c+1"), W(long(92), "0", "1"), W(long(93), "0", "c"), W(long(94), "0", "c"), {Kind: "mkdir", Path: "frag/sub-" + strings.Repeat("d", 180)},
 		{Kind: "remove", Path: long(3)}, W(long(0), "eof", "c+1"), {Kind: "reopen"}}
 	out = append(out, &fatScen{Name: "fragdir", Cfg: cfg, Prefix: pf, Letters: lfr, Depth: depth + 1, Oracle: oracle})
+	// manyextents: one file with 206 separately allocated extents (another file grows in between), so that the next
+	// appends take its extent tree through the leaf splits up to the split of the root index (depth 1 -> 2 at ~211)
+	var pm []fsOp
+	for i := 0; i < 206; i++ {
+		pm = append(pm, fsOp{Kind: "append", Path: "x.bin", Len: "c"}, fsOp{Kind: "append", Path: "y.bin", Len: "c"})
+	}
+	lm := []fsOp{{Kind: "append", Path: "x.bin", Len: "c"}, {Kind: "append", Path: "y.bin", Len: "c"}}
+	if oracle == "model" {
+		lm = append(lm, fsOp{Kind: "readpartial", Path: "x.bin"}, fsOp{Kind: "reopen"})
+	}
+	out = append(out, &fatScen{Name: "manyextents", Cfg: cfg, Prefix: pm, Letters: lm, Depth: 7, Oracle: oracle})
 	// fragfree: free space is fragmented into runs of a few blocks, so that growing writes need several extents at once
 	// and allocation gathers several free runs of one group (the allocator's slow path)
 	hole := "6c"
@@ -338,7 +349,7 @@ func ext4MatrixScens(quick bool) []*fatScen {
 	var out []*fatScen
 	// inode counts that are / are not multiples of the inodes per block (4, 8, 16 for 1K, 2K, 4K blocks): 64 fills whole
 	// blocks, 40 and 104 leave the last inode-table block of a group partly used
-	feats := []string{"", "^64bit", "^flex_bg", "sparse_super2", "resize_inode", "ssv2,sparse_super2", "bpg=2048", "ratio=4096", "inodes=64", "inodes=40", "inodes=104,^flex_bg", "^huge_file", "^64bit,^flex_bg", "sparse_super2,^flex_bg", "^dir_index", "bpg=256", "bpg=1024,^flex_bg"}
+	feats := []string{"", "^64bit", "^flex_bg", "sparse_super2", "resize_inode", "ssv2,sparse_super2", "bpg=2048", "ratio=4096", "inodes=64", "inodes=40", "inodes=104,^flex_bg", "bpg=256", "^huge_file", "^64bit,^flex_bg", "sparse_super2,^flex_bg", "^dir_index", "bpg=1024,^flex_bg"}
 	type geo struct {
 		spb  uint8
 		size int64
@@ -351,7 +362,7 @@ func ext4MatrixScens(quick bool) []*fatScen {
 		for fi, f := range feats {
 			for _, journal := range []bool{false, true} {
 				for _, nocsum := range []bool{false, true} {
-					if quick && (fi > 10 || (journal && nocsum)) {
+					if quick && (fi > 11 || (journal && nocsum)) {
 						continue
 					}
 					if journal && g.size < 8<<20 {
